@@ -60,7 +60,7 @@ def make_values(shape, vk="f", base=1, nan=(), enc="coord"):
         out = np.empty(shape, dtype=object)
     elif vk == "b":
         out = np.empty(shape, dtype=bool)
-    elif vk == "i":
+    elif vk in ("i", "i4"):
         out = np.empty(shape, dtype=np.int64)
     else:
         out = np.empty(shape, dtype=np.float64)
@@ -80,6 +80,8 @@ def make_values(shape, vk="f", base=1, nan=(), enc="coord"):
             out[pos] = c
     if vk == "f4":       # single precision (all encoded values are exactly representable in it)
         out = out.astype(np.float32)
+    if vk == "i4":
+        out = out.astype(np.int32)
     if nan and vk in ("f", "f4"):
         flat = out.reshape(-1)
         for k in nan:
